@@ -53,6 +53,18 @@ CLAIMS = {
          "sentinels are returned and the raw database sentinel is not; Create guards the empty id; exactly one change fan-out on success returns, after the success edge, with (id, value read in "
          "the same transaction, new value), none on error returns; type check before the transaction, veto before the write inside it; a cached value in the txn is dead or refreshed by every "
          "mutation. Linearizability of concurrent histories is not executed.", "DESIGN.md section 4 C11"),
+ "C12": ("who-may-call census of badger transaction writes (value flow to the DB.Update closure parameter) + transaction-count typestate + dominance obligations inside Init's closure",
+         "Decides necessary conditions of crash atomicity: all database writes happen on the transaction of one DB.Update closure, each mutation is exactly one transaction acknowledged only after "
+         "commit, Init reads the marker, seeds and writes the marker in one closure (marker read first, marker write last, found edge writes nothing, existing ids skipped), RebuildIndexes drops "
+         "the index prefixes before its single re-scan. Crash points, fsync and BadgerDB recovery are not explored.", "DESIGN.md section 4 C12"),
+ "C13": ("symbolic linear layout check of hand-built keys + writer/reader constant agreement + funnel census + badger iterator API-usage rule",
+         "Decides the structural part of index queries: key and prefix buffers are exactly filled for every input length and agree with the reader on ':' / separator / name length; nil keys are "
+         "never indexed and nil is not confused with an empty key; maintenance runs only in the FIFO task Flush awaits; a reverse-capable iterator is not sought with the bare prefix; limit 0 and "
+         "negative limit guards. The sorted/filtered/windowed result itself is arithmetic over data and not decided.", "DESIGN.md section 4 C13"),
+ "C14": ("must-pass-through dominance for the query-change fan-out + guard analysis of the unchanged-key predicate with sibling agreement + reset-edge reachability in the query handler",
+         "Decides that subscribers are notified only after the index transaction committed and only when some key changed, that the unchanged-key predicate keeps nil and empty keys apart and is the "
+         "same in maintenance and affectsQuery, and that the handler honours the reset flag and dispatches the same event names in both paths. Soundness of affected-ness for arbitrary key "
+         "functions is not decided.", "DESIGN.md section 4 C14"),
 }
 
 NA = {
